@@ -3,7 +3,8 @@
 //
 //	dump                     -> text of lean/FranzVerif/Gen/C24.lean (run-length encoded interval tables)
 //	gen --seed S --tier T    -> op lines
-//	run                      -> `op | result` lines
+//	run                      -> `op | result` lines (observed through kmsg.Key(k).Request()/Response()/Name() and
+//	                            HasKey + EachMaxKeyVersion, i.e. not through the functions the dumper calls)
 //
 //	ops (every op is a closed interval of int16 values; a point is lo = hi):
 //	  err <lo> <hi>          -> runs of  <ErrorForCode>/<TypedErrorForCode>     each `nil` | `code:MESSAGE:retriable` | `other:<what>`
@@ -473,60 +474,73 @@ func widen(pts []int, by int) []int {
 func gen(a hx.Args) {
 	r := hx.NewRng(a.Seed)
 	rels := allReleases()
-	emitTable := func(prefix string, f func(int16) string, nspans, nrand int) {
-		rs := rle(lo16, hi16, f)
-		pop, _ := populated(rs)
-		pts := widen(pop, 2)
-		// 1. every populated point and its neighbourhood, one op each
-		for _, x := range pts {
-			hx.Emit("%s %d %d", prefix, x, x)
+	// Phases run over all tables in turn (points of every table first), so that the first failing lines of a
+	// run are the most specific ones: 0 = populated points, 1 = exhaustive sweep, 2 = random spans, 3 = random points.
+	pops := map[string][]int{} // populated points per table, computed once from a scan of all of int16 on the live code
+	emitTable := func(phase int, prefix string, f func(int16) string, nspans, nrand int) {
+		pop, ok := pops[prefix]
+		if !ok {
+			pop, _ = populated(rle(lo16, hi16, f))
+			pops[prefix] = pop
 		}
-		// 2. the whole domain as consecutive spans (exhaustive sweep, a few ops)
-		cuts := []int{lo16}
-		for i := 0; i < 6; i++ {
-			cuts = append(cuts, int(r.Range(lo16+1, hi16)))
-		}
-		if len(pop) > 0 { // cut just before and after the populated region
-			cuts = append(cuts, max(lo16, pop[0]-3), min(hi16, pop[len(pop)-1]+4))
-		}
-		sort.Ints(cuts)
-		for i, c := range cuts {
-			end := hi16
-			if i+1 < len(cuts) {
-				end = cuts[i+1] - 1
+		switch phase {
+		case 0: // every populated point and its neighbourhood, one op each
+			for _, x := range widen(pop, 2) {
+				hx.Emit("%s %d %d", prefix, x, x)
 			}
-			if end >= c {
-				hx.Emit("%s %d %d", prefix, c, end)
+		case 1: // the whole domain as consecutive spans (exhaustive sweep, a few ops)
+			cuts := []int{lo16}
+			for i := 0; i < 6; i++ {
+				cuts = append(cuts, int(r.Range(lo16+1, hi16)))
 			}
-		}
-		// 3. random spans: half of them around the populated region, half anywhere
-		plo, phi := lo16, hi16
-		if len(pop) > 0 {
-			plo, phi = max(lo16, pop[0]-40), min(hi16, pop[len(pop)-1]+40)
-		}
-		for i := 0; i < nspans; i++ {
-			var lo, hi int64
-			if r.Chance(75) {
-				lo = r.Range(int64(plo), int64(phi))
-				hi = min(int64(hi16), lo+r.Range(1, 24))
-			} else {
-				lo = r.Range(lo16, hi16)
-				hi = min(int64(hi16), lo+r.Range(1, 6000))
+			if len(pop) > 0 { // cut just before and after the populated region
+				cuts = append(cuts, max(lo16, pop[0]-3), min(hi16, pop[len(pop)-1]+4))
 			}
-			hx.Emit("%s %d %d", prefix, lo, hi)
-		}
-		// 4. random single points anywhere (mostly unpopulated: the trivial cases)
-		for i := 0; i < nrand; i++ {
-			x := r.Range(lo16, hi16)
-			hx.Emit("%s %d %d", prefix, x, x)
+			sort.Ints(cuts)
+			for i, c := range cuts {
+				end := hi16
+				if i+1 < len(cuts) {
+					end = cuts[i+1] - 1
+				}
+				if end >= c {
+					hx.Emit("%s %d %d", prefix, c, end)
+				}
+			}
+		case 2: // random spans: three quarters of them around the populated region, the rest anywhere
+			plo, phi := lo16, hi16
+			if len(pop) > 0 {
+				plo, phi = max(lo16, pop[0]-40), min(hi16, pop[len(pop)-1]+40)
+			}
+			for i := 0; i < nspans; i++ {
+				var lo, hi int64
+				if r.Chance(75) {
+					lo = r.Range(int64(plo), int64(phi))
+					hi = min(int64(hi16), lo+r.Range(1, 90))
+				} else {
+					lo = r.Range(lo16, hi16)
+					hi = min(int64(hi16), lo+r.Range(1, 6000))
+				}
+				hx.Emit("%s %d %d", prefix, lo, hi)
+			}
+		case 3: // random single points anywhere (mostly unpopulated: the trivial cases)
+			for i := 0; i < nrand; i++ {
+				x := r.Range(lo16, hi16)
+				hx.Emit("%s %d %d", prefix, x, x)
+			}
 		}
 	}
 	n := a.N(1, 12)
-	emitTable("err", obsErr, 600*n, 60*n)
-	emitTable("key", obsKey, 600*n, 60*n)
-	for _, rl := range rels {
-		v := rl.fn()
-		emitTable("rel "+rl.name, func(k int16) string { return obsRel(v, k) }, 40*n, 8*n)
+	vs := make([]*kversion.Versions, len(rels))
+	for i, rl := range rels {
+		vs[i] = rl.fn()
+	}
+	for phase := 0; phase < 4; phase++ {
+		emitTable(phase, "err", obsErr, 400*n, 40*n)
+		emitTable(phase, "key", obsKey, 400*n, 40*n)
+		for i, rl := range rels {
+			v := vs[i]
+			emitTable(phase, "rel "+rl.name, func(k int16) string { return obsRel(v, k) }, 40*n, 5*n)
+		}
 	}
 	// a release name the tables do not have: both sides must answer bad-op
 	hx.Emit("rel NoSuchRelease 0 3")
@@ -534,10 +548,43 @@ func gen(a hx.Args) {
 
 // ---------------------------------------------------------------- run
 
+// In run mode the tables are observed through the *other* public entry points where there are any, so that the
+// differential lines are not a re-run of the dumper: kmsg.Key(k).Request()/Response()/Name() instead of
+// RequestForKey/ResponseForKey/NameForKey, and HasKey + EachMaxKeyVersion instead of LookupMaxKeyVersion.
+func obsKeyRun(key int16) string {
+	k := kmsg.Key(key)
+	return guard(func() string { return reqStr(k.Request()) }) + "/" +
+		guard(func() string { return respStr(k.Response()) }) + "/" +
+		guard(func() string { return san(k.Name()) })
+}
+
+type relView struct {
+	v    *kversion.Versions
+	each map[int16]int16
+}
+
+func (rv relView) obs(key int16) string {
+	m, listed := rv.each[key]
+	if !listed {
+		m = -1
+	}
+	has := rv.v.HasKey(key)
+	if has != listed {
+		return fmt.Sprintf("other:HasKey=%v_EachMaxKeyVersion=%v", has, listed)
+	}
+	rq, rs := codecMax(key)
+	return fmt.Sprintf("%d:%s/%s/%s", m, hx.B(has), rq, rs)
+}
+
 func run() {
-	rels := map[string]*kversion.Versions{}
+	rels := map[string]relView{}
 	for _, rl := range allReleases() {
-		rels[rl.name] = rl.fn()
+		v := rl.fn()
+		rv := relView{v: v, each: map[int16]int16{}}
+		if v != nil {
+			v.EachMaxKeyVersion(func(k, m int16) { rv.each[k] = m })
+		}
+		rels[rl.name] = rv
 	}
 	rng := func(lo, hi string) (int, int, bool) {
 		l, h := hx.Atoi(lo), hx.Atoi(hi)
@@ -560,14 +607,14 @@ func run() {
 			if !ok {
 				return "bad-op"
 			}
-			rs = rle(lo, hi, obsKey)
+			rs = rle(lo, hi, obsKeyRun)
 		case t[0] == "rel" && len(t) == 4:
-			v, have := rels[t[1]]
+			rv, have := rels[t[1]]
 			lo, hi, ok := rng(t[2], t[3])
-			if !ok || !have || v == nil {
+			if !ok || !have || rv.v == nil {
 				return "bad-op"
 			}
-			rs = rle(lo, hi, func(k int16) string { return obsRel(v, k) })
+			rs = rle(lo, hi, rv.obs)
 		default:
 			return "bad-op"
 		}
